@@ -138,6 +138,7 @@ def run(ctx):
     ctx.floor("C03.H", 3 * 3 + 3 * 3)
     canonical_min_rule(ctx, "C03.M")
     header_line_rule(ctx)
+    cli_deps(ctx)
     # the bijection is built from rev_comp and named through numeric_to_kmer: their codec rules are part of this check
     from . import c02
     d = dep(ctx, "C03", "C02")
@@ -151,6 +152,7 @@ def maps_rules(ctx, P="C03"):
     fv = ctx.need(P + ".K1", MAPS)
     if fv is not None:
         rule_pure_function(ctx, P + ".K1", fv, "kmer_pos_maps")
+        panic_audit(ctx, P + ".K1", ["kmer::kmer::KmerGenerator::kmer_pos_maps", "kmer::kmer::KmerGenerator::rev_comp", "kmer::numeric_to_kmer"])
     if fv is None:
         return
     kp = param_index(fv, "ksize")
@@ -314,6 +316,13 @@ def canonical_min_rule(ctx, rule):
                       "register %s/%s is read outside min(forward, reverse)" % (f, r),
                       line_of(bad) if bad else fv.fn["sp"])
     ctx.floor(rule, 8)
+
+
+def cli_deps(ctx):
+    """the header exists for every k the CLI admits and is joined with the preset's delimiter: option range and setters"""
+    from . import c15
+    c15.ranges_rule(dep(ctx, "C03", "C15"), structs=("OligoCommand",))
+    c15.setters_rule(dep(ctx, "C03", "C15"), ("Oligo",))
 
 
 def header_line_rule(ctx):
